@@ -37,17 +37,19 @@ IMPORTS_D = ("From Coq Require Import PrimFloat.\nFrom V Require Import Model.Nu
 
 def known_corner_sig(f):
     return {"family": "daily/billing", "broken": "closed form", "shape": f["shape"],
-            "corner": c01lib.CORNER if f["corner"] else "no", "T": "> T_max" if f["above_T_max"] else "<= T_max"}
+            "corner": c01lib.CORNER if f["corner"] else "no", "crossed": c01lib.CROSSED if f.get("crossed") else "no",
+            "T": "> T_max" if f["above_T_max"] else "<= T_max"}
 
 
 # ----------------------------------------------------------------------------------------------------- stream docs
 
-def coq_outcome(o, shared):
+def coq_outcome(o, shared, doc=None):
     if "rejected" in o:
         return "Rejected"
-    preds = coq_list(["(%s, %s)" % (coq_string(k), coq_list([c01lib.coq_prow(r) for r in rows])) for k, rows in o["preds"].items()])
-    return "(Accepted %s %s %s %s)" % (c01lib.coq_doc_with_shared(o["redump"], shared), preds,
-                                       coq_list([cjson(x) for x in o["season"]]), coq_list([cjson(x) for x in o["weekday"]]))
+    preds = coq_list(["(%s, %s)" % (shared.s(k), coq_list([c01lib.coq_prow(r) for r in rows])) for k, rows in o["preds"].items()])
+    same = doc is not None and c01lib.first_diff(doc, o["redump"]) is None
+    return "(Accepted %s %s %s %s)" % ("None" if same else "(Some %s)" % c01lib.coq_doc_with_shared(o["redump"], shared), preds,
+                                       coq_list([shared.json(x) for x in o["season"]]), coq_list([shared.json(x) for x in o["weekday"]]))
 
 
 def doc_sig0(case):
@@ -94,7 +96,7 @@ def process_docs(run, cases, observations, stream="docs"):
                         "shapes": shapes, "tz": doc["info"]["baseline_timezone"], "prediction_rows": n_rows,
                         "text_equal": o["rt"].get("text_equal"), "predict_sets": [(p["set"], p.get("identical")) for p in o["rt"].get("predict", [])]})
         cls = "Billing" if case["cls"] == "billing" else "Daily"
-        terms.append("(%s, %s, %s)" % (cls, c01lib.coq_doc_with_shared(doc, shared), coq_outcome(o, shared)))
+        terms.append("(%s, %s, %s)" % (cls, c01lib.coq_doc_with_shared(doc, shared), coq_outcome(o, shared, doc)))
         kept.append((case, o))
     if not terms:
         return
@@ -172,18 +174,18 @@ def process_daily_states(run, results):
         st["settings"] = shared.name(st["settings"])
         doc = json.loads(res["js"])
         cls = "Billing" if job["family"] == "billing" else "Daily"
-        terms.append("(%s, %s, %s)" % (cls, c01lib.coq_daily_state(st), c01lib.coq_doc_with_shared(doc, shared)))
+        terms.append("(%s, %s, %s)" % (cls, c01lib.coq_daily_state(st, shared), c01lib.coq_doc_with_shared(doc, shared)))
         kept.append(res)
         doc_cases.append({"k": 10**6 + len(doc_cases), "profile": job["profile"], "cls": job["family"], "doc": doc,
                           "tamper": "real-fit", "corner": False})
     if not terms:
         return []
-    bad = run.coq_cases("state-daily", IMPORTS_D, shared.prelude(), terms, "check_state", shard=20)
+    bad = run.coq_cases("state_daily", IMPORTS_D, shared.prelude(), terms, "check_state", shard=20)
     if bad is None:
         run.proof_ok = False
     else:
         for i in bad:
-            run.corr_failures.append({"stream": "state-daily", "case": {"job": kept[i]["job"], "state": kept[i]["state"]},
+            run.corr_failures.append({"stream": "state_daily", "case": {"job": kept[i]["job"], "state": kept[i]["state"]},
                                       "impl": json.loads(kept[i]["js"]), "model": "to_doc(state) differs from to_json()"})
     return doc_cases
 
@@ -238,14 +240,6 @@ def main():
                                 "harness/translate_c01.py (pydantic introspection of the settings classes; output in Generated/C01Gen.v)",
                                 "json / pydantic / pandas.to_json re-specified at the JSON-tree level"]
     t0 = time.time()
-    # step 0: translator (fail-closed)
-    try:
-        info = translate_c01.generate(run)
-        run.cov["translator"] = info
-    except Exception as e:  # noqa
-        run.proof_ok = False
-        run.proof_log += "translate_c01 failed: %s: %s" % (type(e).__name__, e)
-        run.log("TRANSLATOR FAILED: %s: %s" % (type(e).__name__, e))
     # package constants the numeric model assumes
     from opendsm.common.utils import LN_MIN_POS_SYSTEM_VALUE, LN_MAX_POS_SYSTEM_VALUE
     if float(LN_MIN_POS_SYSTEM_VALUE).hex() != "-0x1.4b2c1fad0922dp+8" or float(LN_MAX_POS_SYSTEM_VALUE).hex() != "0x1.4bdd91c500f4ap+8":
@@ -277,7 +271,7 @@ def main():
             corpus = os.path.join(vlib.VERIF, "corpus", "C01.json")
             if os.path.exists(corpus):
                 cases += json.load(open(corpus))
-            n = run.n(360, 100000 // 8)
+            n = run.n(300, 100000 // 8)
             for k in range(n):
                 cases.append(c01lib.gen_doc(run.rng, k, splits, corner=(k % 97 == 13)))
             for i, c in enumerate(cases):
@@ -286,6 +280,14 @@ def main():
     doc_futs = [pool.submit(c01lib.run_docs, cases[i:i + chunk], run.seed) for i in range(0, len(cases), chunk)]
     run.log("submitted %d fit jobs, %d synthetic documents (%.1fs)" % (len(fit_futs), len(cases), time.time() - t0))
 
+    # step 0: translator (fail-closed)
+    try:
+        info = translate_c01.generate(run)
+        run.cov["translator"] = info
+    except Exception as e:  # noqa
+        run.proof_ok = False
+        run.proof_log += "translate_c01 failed: %s: %s" % (type(e).__name__, e)
+        run.log("TRANSLATOR FAILED: %s: %s" % (type(e).__name__, e))
     # step 1: theorems
     run.check_proofs("Properties/C01.v",
                      ["Proofs/DailyDocProofs.v", "Proofs/DailyClosedFormProofs.v", "Proofs/HourlyDocProofs.v", "Proofs/CalTrackDocProofs.v"],
@@ -309,7 +311,7 @@ def main():
     usable = process_fits(run, results)
     real_docs = process_daily_states(run, usable)
     if real_docs:
-        process_docs(run, real_docs, c01lib.run_docs(real_docs, run.seed), stream="docs-real")
+        process_docs(run, real_docs, c01lib.run_docs(real_docs, run.seed), stream="docs_real")
     import c01hc
     c01hc.process_hourly(run, usable)
     c01hc.process_caltrack(run, usable)
